@@ -26,8 +26,10 @@ import (
 const Budget = 20000
 
 type replayIn struct {
-	Fam string `json:"family"`
-	Src string `json:"source"`
+	Fam  string   `json:"family"`
+	Src  string   `json:"source"`
+	Post []string `json:"host_calls,omitempty"`
+	Meta string   `json:"case,omitempty"`
 }
 
 // pool runs f over programs streamed from gen on all cores.
@@ -52,7 +54,7 @@ func Pool(gen func(yield func(progen.Program)), f func(env *rt.Env, p progen.Pro
 // One runs one program through model and implementation and reports.
 func One(r *ev.Run, env *rt.Env, p progen.Program, stats *Stats) {
 	src := p.Src()
-	m := refsem.Run(p.Prog, Budget)
+	m := refsem.RunPost(p.Prog, p.Post, Budget)
 	if m.NonTerm {
 		atomic.AddInt64(&stats.NonTerm, 1)
 		return
@@ -61,7 +63,7 @@ func One(r *ev.Run, env *rt.Env, p progen.Program, stats *Stats) {
 		atomic.AddInt64(&stats.Unspec, 1)
 		return
 	}
-	o := env.Eval(src, p.Names)
+	o := env.EvalPost(src, p.Names, p.Post)
 	r.Eval(1)
 	kind, detail := diffo.Compare(m, o, p.Names)
 	if kind == "invalid-accepted" {
@@ -91,7 +93,10 @@ func One(r *ev.Run, env *rt.Env, p progen.Program, stats *Stats) {
 	if ft := diffo.Features(p.Prog); ft != "" {
 		sig += ":" + ft
 	}
-	r.Report(sig, fmt.Sprintf("%s\n  %s", src, detail), replayIn{p.Fam, src}, detail, "agreement with the reference interpreter")
+	if p.Tag != "" {
+		sig += ":" + p.Tag
+	}
+	r.Report(sig, fmt.Sprintf("%s\n  %s", src, detail), replayIn{p.Fam, src, p.Post, p.Meta}, detail, "agreement with the reference interpreter")
 }
 
 // OneShape checks the parse tree of a flat operator sequence against the model's parse.
@@ -102,11 +107,11 @@ func OneShape(r *ev.Run, p progen.Program) {
 	got, perr := parseDump(src)
 	r.Outcome("F1shape|" + want)
 	if perr != "" {
-		r.Report("F1shape:valid-rejected:"+shapeClass(src), fmt.Sprintf("%s\n  the rules give %s; the parser says: %s", src, want, perr), replayIn{p.Fam, src}, perr, want)
+		r.Report("F1shape:valid-rejected:"+shapeClass(src), fmt.Sprintf("%s\n  the rules give %s; the parser says: %s", src, want, perr), replayIn{p.Fam, src, nil, ""}, perr, want)
 		return
 	}
 	if got != want {
-		r.Report("F1shape:wrong-tree:"+shapeClass(src), fmt.Sprintf("%s\n  parsed as %s, the precedence rules give %s", src, got, want), replayIn{p.Fam, src}, got, want)
+		r.Report("F1shape:wrong-tree:"+shapeClass(src), fmt.Sprintf("%s\n  parsed as %s, the precedence rules give %s", src, got, want), replayIn{p.Fam, src, nil, ""}, got, want)
 	}
 }
 
@@ -152,7 +157,7 @@ func Check(r *ev.Run, replay string) {
 			r.EngineError(err.Error())
 			return
 		}
-		o := rt.Eval(in.Src, nil)
+		o := rt.NewEnv(nil).EvalPost(in.Src, nil, in.Post)
 		fmt.Printf("source:\n%s\nimplementation: stage=%s value=%s err=%q log=%q\n", in.Src, o.Stage, o.Val, o.ErrText, o.Log)
 		r.Eval(1)
 		r.Outcome("replay")
